@@ -3,12 +3,16 @@
 # Writes evidence/replays to a scratch directory (never /verif/evidence).  Uses the already built binaries in /verif/sim/target.
 A=${1:-1}; B=${2:-32}; TIER=${3:-quick}
 export VERIF_EVIDENCE_DIR=/var/tmp/verif-sweep/evidence VERIF_REPLAY_DIR=/var/tmp/verif-sweep/replays
-mkdir -p $VERIF_EVIDENCE_DIR $VERIF_REPLAY_DIR
+mkdir -p $VERIF_EVIDENCE_DIR $VERIF_REPLAY_DIR /var/tmp/verif-sweep/bin
+# private copies: later rebuilds in /verif/sim/target (e.g. with a seeded change applied) must not leak into the sweep
+cp /verif/sim/target/release/verif-sim /verif/sim/target/interpose.so /verif/sim/target/repo-cli/release/conjure-rust /var/tmp/verif-sweep/bin/ || exit 2
+export VERIF_CLI=/var/tmp/verif-sweep/bin/conjure-rust VERIF_SHIM=/var/tmp/verif-sweep/bin/interpose.so
+BIN=/var/tmp/verif-sweep/bin/verif-sim
 BAD=0
 for SEED in $(seq $A $B); do
   for W in 16 3; do
     for P in C01 C04 C05 C06 C07 C09 C18 C19 C20; do
-      OUT=$(VERIF_SEED=$SEED VERIF_WORKERS=$W /verif/sim/target/release/verif-sim check $P $TIER 2>&1); RC=$?
+      OUT=$(VERIF_SEED=$SEED VERIF_WORKERS=$W $BIN check $P $TIER 2>&1); RC=$?
       if [ $RC -ne 0 ]; then BAD=$((BAD+1)); echo "ALARM seed=$SEED workers=$W $P rc=$RC"; echo "$OUT" | grep -E "VIOLATION|HARNESS|kind=" | head -6; fi
     done
   done
